@@ -1,7 +1,7 @@
 (* Props/C15.v -- Phase ordering and decimal I/O use the full two-part value.  Statements only. *)
-From Coq Require Import ZArith QArith Reals Floats Bool String.
+From Coq Require Import ZArith QArith Reals Floats Bool String List.
 From Flocq Require Import Core BinarySingleNaN PrimFloat.
-From PB Require Import Proofs.TwoSumExact Model.Phase2 Model.DecStr Proofs.Floor Proofs.PhaseCmp Proofs.PhaseCmpAll Proofs.DecStrProofs.
+From PB Require Import Proofs.TwoSumExact Model.Phase2 Model.DecStr Proofs.Floor Proofs.PhaseCmp Proofs.PhaseCmpAll Proofs.DecStrProofs Model.PhaseOrd Proofs.PhaseArgmin.
 Open Scope R_scope.
 
 (* comparison branch, bit-exact model: diff = (int1 - int2) + (frac1 - frac2) has exactly the sign of the exact difference
@@ -60,11 +60,43 @@ Example C15_strings :
   from_string "1e" = RErr.
 Proof. vm_compute. repeat split; reflexivity. Qed.
 
-(* PARTIAL (carried by the exact correspondence + monitor on every run): argmin / argmax / argsort / min / max / ptp / sort
-   (Model/PhaseOrd.v is compared index for index and bit for bit), the float-level parser (count, frac as doubles) being within
-   2^-52 of the exact parser above, to_string = exact value rounded to the digits shown, from_string (to_string p) = p. *)
+(* reductions, bit-exact model (approx = min / max of the ROUNDED cycles, then the first minimum / maximum of (int - approx) + frac):
+   ok_ph q := int, frac finite, |int| <= 2^52, |frac| <= 1/2 + 2^-50;  V q := exact two-part value.
+   The selected element's exact value is within 2^-50 cycles of the exact minimum / maximum of the list -- for every non-empty list,
+   near-ties below the resolution of the count included (approx alone is off by up to half a cycle at counts near 2^52) *)
+Theorem C15_argmin : forall p r, Forall ok_ph (p :: r) ->
+  let l := p :: r in let j := argmin l in
+  (j < length l)%nat /\ In (nth j l dflt) l /\ forall y, In y l -> V (nth j l dflt) <= V y + bpow radix2 (-50).
+Proof. exact argmin_near. Qed.
+Theorem C15_argmax : forall p r, Forall ok_ph (p :: r) ->
+  let l := p :: r in let j := argmax l in
+  (j < length l)%nat /\ In (nth j l dflt) l /\ forall y, In y l -> V y <= V (nth j l dflt) + bpow radix2 (-50).
+Proof. exact argmax_near. Qed.
+Theorem C15_min : forall p r, Forall ok_ph (p :: r) ->
+  In (pmin (p :: r)) (p :: r) /\ forall y, In y (p :: r) -> V (pmin (p :: r)) <= V y + bpow radix2 (-50).
+Proof. exact pmin_near. Qed.
+Theorem C15_max : forall p r, Forall ok_ph (p :: r) ->
+  In (pmax (p :: r)) (p :: r) /\ forall y, In y (p :: r) -> V y <= V (pmax (p :: r)) + bpow radix2 (-50).
+Proof. exact pmax_near. Qed.
+(* hence: an element below all others by more than 2^-50 cycles is found exactly *)
+Theorem C15_argmin_exact : forall p r k, Forall ok_ph (p :: r) -> (k < length (p :: r))%nat ->
+  (forall i, (i < length (p :: r))%nat -> i <> k -> V (nth k (p :: r) dflt) + bpow radix2 (-50) < V (nth i (p :: r) dflt)) ->
+  argmin (p :: r) = k.
+Proof. exact argmin_exact. Qed.
+Theorem C15_argmax_exact : forall p r k, Forall ok_ph (p :: r) -> (k < length (p :: r))%nat ->
+  (forall i, (i < length (p :: r))%nat -> i <> k -> V (nth i (p :: r) dflt) + bpow radix2 (-50) < V (nth k (p :: r) dflt)) ->
+  argmax (p :: r) = k.
+Proof. exact argmax_exact. Qed.
+
+(* PARTIAL (carried by the exact correspondence + monitor on every run): argsort / sort / ptp (Model/PhaseOrd.v is compared index
+   for index and bit for bit), ties of argmin / argmax closer than 2^-50 (first-occurrence rule), the float-level parser (count, frac
+   as doubles) being within 2^-52 of the exact parser above, to_string = exact value rounded to the digits shown,
+   from_string (to_string p) = p. *)
 
 Print Assumptions C15_diff_sign.
 Print Assumptions C15_comparisons.
 Print Assumptions C15_parse_split.
 Print Assumptions C15_parse_count_integral.
+Print Assumptions C15_argmin.
+Print Assumptions C15_argmax.
+Print Assumptions C15_argmin_exact.
